@@ -4,6 +4,7 @@
 -/
 import Exmex.Spec.Split
 namespace Exmex
+namespace BumpAux
 
 /-! ### `argminR` -/
 
@@ -342,4 +343,5 @@ theorem BumpAbs.ev (H : BumpAbs apply N prio bmp idx g) {key1 : Nat → Int}
 
 end
 
+end BumpAux
 end Exmex
